@@ -72,7 +72,16 @@ pub enum Step {
     Call(String, usize),
 }
 
+/// What a reactive peer answers: octets to append to its script and whether it closes afterwards.
+pub struct Reply {
+    pub bytes: Vec<u8>,
+    pub close: bool,
+}
+pub type Responder = Box<dyn FnMut(usize, &ConnState) -> Option<Reply> + Send>;
+
 pub struct World {
+    /// reactive peers: asked when a connection has nothing left to release and the client wants more
+    pub responder: Option<Responder>,
     pub conns: Vec<ConnState>,
     pub dialed: usize,
     pub sched: VecDeque<Step>,
@@ -89,6 +98,7 @@ pub type Shared = Arc<Mutex<World>>;
 impl World {
     pub fn new(scripts: Vec<ConnScript>, sched: Vec<Step>) -> World {
         World {
+            responder: None,
             conns: scripts
                 .into_iter()
                 .map(|s| ConnState {
@@ -174,6 +184,20 @@ impl World {
         if c.released < left_cap {
             let k = c.script.segs.pop_front().unwrap_or(usize::MAX).max(1);
             return self.release(ci, k) > 0;
+        }
+        // a reactive peer may have more to say now that it has seen what the client wrote
+        if let Some(mut r) = self.responder.take() {
+            let reply = r(ci, &self.conns[ci]);
+            self.responder = Some(r);
+            if let Some(rep) = reply {
+                let c = &mut self.conns[ci];
+                c.script.wire.extend_from_slice(&rep.bytes);
+                c.script.close_at_end = rep.close;
+                if !rep.bytes.is_empty() {
+                    let k = c.script.segs.pop_front().unwrap_or(usize::MAX).max(1);
+                    return self.release(ci, k) > 0;
+                }
+            }
         }
         false
     }
@@ -271,6 +295,12 @@ pub fn install_dialer(world: &Shared) {
     attohttpc::verif::set_dialer(Some(Box::new(move |req| {
         let mut w = world.lock().unwrap();
         let ci = w.dialed;
+        if ci >= w.conns.len() && w.responder.is_some() && ci < 64 {
+            let mut cs = ConnScript::new(Vec::new());
+            cs.close_at_end = false;
+            let mut nw = World::new(vec![cs], vec![]);
+            w.conns.push(nw.conns.remove(0));
+        }
         if ci >= w.conns.len() {
             return Some(Err(io::Error::new(io::ErrorKind::ConnectionRefused, "no scripted peer left")));
         }
